@@ -1,9 +1,12 @@
 (** C12 — legacy SSE transport: live-or-raise setup, exactly-once delivery,
     chunk-independent.  Property theorems only; each is closed by [exact] of a
     lemma from Proofs/SseLegacy.v.  The model (Model/SseLegacy.v) is indexed by
-    [cfg]; [cfg_head] is /repo HEAD, each flag set to [true] is one proposed
-    patch (fixes/C12-*.patch).  The theorems say which flags they need; the
-    [_head_] theorems are the refutation witnesses for the flags HEAD lacks. *)
+    [cfg], one flag per repair: [cfg_orig] is the code before any of them,
+    [cfg_head] is /repo HEAD (the first five in, the last two —
+    fixes/C12-6-late-answer-dropped.patch, fixes/C12-7-answer-routed-in-stream-order.patch
+    — proposed), [cfg_patched] HEAD with both.  The theorems say which flags
+    they need; every full-strength statement comes with its refutation for the
+    members that lack the flag. *)
 From Verif.Base Require Import Prelude SseVocab.
 From Verif.Spec Require Import C12.
 From Verif.Model Require Import SseLegacy.
@@ -22,7 +25,7 @@ Theorem C12_enter_live_or_raise : forall c base timeout e,
 Proof. exact enter_live_or_raise. Qed.
 Print Assumptions C12_enter_live_or_raise.
 
-(** "announced in each accepted form": with the optional-space patch both
+(** "announced in each accepted form": with the optional-space repair both
     fields are recognised with and without the space, and a CR before the LF
     is ignored. *)
 Theorem C12_field_forms : forall c v (sp : bool),
@@ -37,13 +40,44 @@ Print Assumptions C12_field_forms.
     for every complete life of a request in the property's environment
     ([sched_ok]): any interleaving of the POST result, the answer on the
     stream, the timer, the sender's wake-up and unrelated traffic. *)
-Theorem C12_one_terminal_per_request : forall c rid evs,
+Theorem C12_one_terminal_per_request : forall c rid evs late,
   c_keep_id c = true -> c_other_terminal c = true ->
   sched_ok rid evs = true ->
-  count_terminals rid (run c SIdle (ESend (CReq rid) :: evs)) = 1%nat /\
-  final c SIdle (ESend (CReq rid) :: evs) = SIdle.
+  count_terminals rid (run c (SS SIdle late) (ESend (CReq rid) :: evs)) = 1%nat /\
+  s_task (final c (SS SIdle late) (ESend (CReq rid) :: evs)) = SIdle.
 Proof. exact one_terminal. Qed.
 Print Assumptions C12_one_terminal_per_request.
+
+(** FULL STRENGTH, late answers included ([sched_ok_late]: the server's one
+    answer on the stream may also come after the request has had its
+    synthesised terminal message — timeout, failed POST, unexpected status):
+    still exactly one terminal message, from whatever set of remembered keys
+    the request starts.  Needs the patch that remembers abandoned requests;
+    refuted for every member without it. *)
+Theorem C12_one_terminal_full : forall c,
+  c_keep_id c = true -> c_other_terminal c = true -> c_drop_late c = true ->
+  forall rid evs late, sched_ok_late rid evs = true ->
+  count_terminals rid (run c (SS SIdle late) (ESend (CReq rid) :: evs)) = 1%nat /\
+  s_task (final c (SS SIdle late) (ESend (CReq rid) :: evs)) = SIdle.
+Proof. exact one_terminal_full. Qed.
+Print Assumptions C12_one_terminal_full.
+
+Theorem C12_one_terminal_refuted : forall c, c_drop_late c = false -> ~ one_terminal_statement c.
+Proof. exact one_terminal_refuted. Qed.
+Print Assumptions C12_one_terminal_refuted.
+
+(** The full-strength environment extends the property's, and accepts the late
+    modes (answer after the timeout error / after a failed POST / after an
+    unexpected status) with arbitrary unrelated traffic around them. *)
+Theorem C12_late_environment :
+  (forall rid evs, sched_ok rid evs = true -> sched_ok_late rid evs = true) /\
+  (forall rid a n1 n2 n3,
+     is_terminal rid a = true -> noise rid n1 -> noise rid n2 -> noise rid n3 ->
+     sched_ok_late rid (n1 ++ EPost (PStatus 202 BNotJson) :: n2 ++ ETimeout :: n3 ++ [ESse (Some a)]) = true /\
+     sched_ok_late rid (n1 ++ EPost PExc :: n2 ++ [ESse (Some a)]) = true /\
+     sched_ok_late rid (n1 ++ EPost (PStatus 500 BNotJson) :: n2 ++ [ESse (Some a)]) = true).
+Proof. split. exact sched_ok_is_late. exact late_modes_accepted. Qed.
+Print Assumptions C12_late_environment.
 
 (** The six modes of the property text, with arbitrary unrelated traffic
     around them, are such lives. *)
@@ -74,10 +108,33 @@ Print Assumptions C12_stream_chunk_independent.
     request of this client is delivered completely. *)
 Theorem C12_in_order_once : forall c evs st,
   Subseq (sse_outs (run c st evs)) (stream_msgs evs) /\
-  ((forall m i, In m (stream_msgs evs) -> In i (st_ids st ++ sent_ids evs) -> same_key i m = false) ->
+  ((forall m k, In m (stream_msgs evs) -> In k (st_keys st ++ sent_keys evs) -> msg_has_key k m = false) ->
    sse_outs (run c st evs) = stream_msgs evs).
 Proof. intros. split. apply sse_outs_subseq. apply unrelated_traffic_in_order. Qed.
 Print Assumptions C12_in_order_once.
+
+(** FULL STRENGTH: in every life of a request — late answer included — what
+    reaches the read stream FROM THE EVENT STREAM ([stream_part]: whoever
+    delivered it) is exactly what is due ([stream_due], Spec/C12.v), in stream
+    order: every message, the answer at its own place in the stream, the late
+    answer not at all.  In the property's own environment that is everything
+    that was on the stream.  Needs both proposed patches; refuted for every
+    member that hands the answer to the sender task, and for every member
+    that delivers the late answer. *)
+Theorem C12_in_order_full : forall c,
+  c_keep_id c = true -> c_other_terminal c = true -> c_drop_late c = true -> c_route_in_stream c = true ->
+  (forall rid evs, sched_ok_late rid evs = true ->
+     stream_part (run c sinit (ESend (CReq rid) :: evs)) = stream_due rid late_init evs) /\
+  (forall rid evs, sched_ok rid evs = true ->
+     stream_part (run c sinit (ESend (CReq rid) :: evs)) = stream_msgs evs).
+Proof. exact in_order_full_both. Qed.
+Print Assumptions C12_in_order_full.
+
+Theorem C12_in_order_refuted :
+  (forall c, c_route_in_stream c = false -> ~ in_order_statement c) /\
+  (forall c, c_drop_late c = false -> ~ in_order_statement c).
+Proof. split. exact in_order_refuted. exact in_order_refuted_late. Qed.
+Print Assumptions C12_in_order_refuted.
 
 (** _cleanup releases everything from ANY resource state and is idempotent;
     every closed life (normal exit, exception, cancellation, failed or
@@ -102,33 +159,43 @@ Proof.
 Qed.
 Print Assumptions C12_cleanup_releases_all.
 
-(** Full-strength claims the code does not meet, patched or not (known findings). *)
-Theorem C12_one_terminal_refuted : forall c, ~ one_terminal_statement c.
-Proof. exact one_terminal_refuted. Qed.
-Print Assumptions C12_one_terminal_refuted.
-
-Theorem C12_in_order_refuted : forall c, ~ in_order_statement c.
-Proof. exact in_order_refuted. Qed.
-Print Assumptions C12_in_order_refuted.
-
-(** HEAD without the proposed patches: one witness per open defect. *)
+(** /repo HEAD: the two open defects on their concrete inputs, and what the
+    two proposed patches make of the same inputs. *)
 Theorem C12_head_witnesses :
-  (count_terminals (IdInt 1) (run cfg_head SIdle [ESend (CReq (IdInt 1)); EPost (PStatus 202 BNotJson); ETimeout]) = 0%nat
-   /\ sched_ok (IdInt 1) [EPost (PStatus 202 BNotJson); ETimeout] = true) /\
-  (count_terminals w_rid (run cfg_head SIdle [ESend (CReq w_rid); EPost (PStatus 500 BInvalid)]) = 0%nat
-   /\ sched_ok w_rid [EPost (PStatus 500 BInvalid)] = true) /\
-  (snd (run_parser cfg_head w_base pinit [w_nospace]) = []
-   /\ snd (run_parser cfg_patched w_base pinit [w_nospace]) = [AEndpoint (w_base ++ s_messages ++ [120])]) /\
-  (lp (life cfg_head [LAlloc; LStreamOpen; LEnterCancel]) = LClosed
-   /\ released (lr (life cfg_head [LAlloc; LStreamOpen; LEnterCancel])) = false) /\
-  (lp (life cfg_head [LAlloc; LStreamOpen; LEnterOk; LPendAdd; LWait; LSseEnds; LExit XNormal]) = LStuck
-   /\ r_out_task (lr (life cfg_head [LAlloc; LStreamOpen; LEnterOk; LPendAdd; LWait; LSseEnds; LExit XNormal])) = true).
+  (~ one_terminal_statement cfg_head /\ ~ in_order_statement cfg_head) /\
+  (sched_ok_late w_rid w_late = true /\
+   map snd (run cfg_head sinit (ESend (CReq w_rid) :: w_late)) = [Msg (Some w_rid) (KErr (-32000)) 0; w_ans] /\
+   map snd (run cfg_patched sinit (ESend (CReq w_rid) :: w_late)) = [Msg (Some w_rid) (KErr (-32000)) 0]) /\
+  (sched_ok w_rid w_overtaken = true /\
+   stream_msgs w_overtaken = [w_ans; w_notif] /\
+   map snd (run cfg_head sinit (ESend (CReq w_rid) :: w_overtaken)) = [w_notif; w_ans] /\
+   map snd (run cfg_patched sinit (ESend (CReq w_rid) :: w_overtaken)) = [w_ans; w_notif]).
 Proof.
-  split; [|split; [|split; [|split]]].
-  exact head_int_id_no_terminal. exact head_other_status_no_terminal.
-  exact head_nospace_not_recognised. exact head_cancel_during_enter_leaks. exact head_exit_after_stream_end_hangs.
+  split; [|split].
+  split. exact (one_terminal_refuted cfg_head eq_refl). exact (in_order_refuted cfg_head eq_refl).
+  exact head_late_answer_second_terminal. exact head_answer_overtaken.
 Qed.
 Print Assumptions C12_head_witnesses.
+
+(** The code before the five earlier repairs: one witness per defect (all
+    repaired in /repo since). *)
+Theorem C12_orig_witnesses :
+  (count_terminals (IdInt 1) (run cfg_orig sinit [ESend (CReq (IdInt 1)); EPost (PStatus 202 BNotJson); ETimeout]) = 0%nat
+   /\ sched_ok (IdInt 1) [EPost (PStatus 202 BNotJson); ETimeout] = true) /\
+  (count_terminals w_rid (run cfg_orig sinit [ESend (CReq w_rid); EPost (PStatus 500 BInvalid)]) = 0%nat
+   /\ sched_ok w_rid [EPost (PStatus 500 BInvalid)] = true) /\
+  (snd (run_parser cfg_orig w_base pinit [w_nospace]) = []
+   /\ snd (run_parser cfg_head w_base pinit [w_nospace]) = [AEndpoint (w_base ++ s_messages ++ [120])]) /\
+  (lp (life cfg_orig [LAlloc; LStreamOpen; LEnterCancel]) = LClosed
+   /\ released (lr (life cfg_orig [LAlloc; LStreamOpen; LEnterCancel])) = false) /\
+  (lp (life cfg_orig [LAlloc; LStreamOpen; LEnterOk; LPendAdd; LWait; LSseEnds; LExit XNormal]) = LStuck
+   /\ r_out_task (lr (life cfg_orig [LAlloc; LStreamOpen; LEnterOk; LPendAdd; LWait; LSseEnds; LExit XNormal])) = true).
+Proof.
+  split; [|split; [|split; [|split]]].
+  exact orig_int_id_no_terminal. exact orig_other_status_no_terminal.
+  exact orig_nospace_not_recognised. exact orig_cancel_during_enter_leaks. exact orig_exit_after_stream_end_hangs.
+Qed.
+Print Assumptions C12_orig_witnesses.
 
 (** The extracted checkers applied to the implementation's observations decide
     the declarative specification. *)
@@ -143,10 +210,14 @@ Print Assumptions C12_spec_checkers_reflect.
 (** Non-vacuity: concrete non-trivial values meet the hypotheses. *)
 Example C12_nonvacuous :
   sched_ok w_rid [ESse (Some w_notif); EPost (PStatus 202 BNotJson); ESse (Some w_ans); ESse (Some w_notif); EWake] = true
-  /\ map snd (run cfg_patched SIdle [ESend (CReq w_rid); ESse (Some w_notif); EPost (PStatus 202 BNotJson);
-                                     ESse (Some w_ans); ESse (Some w_notif); EWake]) = [w_notif; w_notif; w_ans]
+  /\ map snd (run cfg_patched sinit [ESend (CReq w_rid); ESse (Some w_notif); EPost (PStatus 202 BNotJson);
+                                     ESse (Some w_ans); ESse (Some w_notif); EWake]) = [w_notif; w_ans; w_notif]
+  /\ map snd (run cfg_head sinit [ESend (CReq w_rid); ESse (Some w_notif); EPost (PStatus 202 BNotJson);
+                                  ESse (Some w_ans); ESse (Some w_notif); EWake]) = [w_notif; w_notif; w_ans]
+  /\ sched_ok_late w_rid (ESse (Some w_notif) :: w_late ++ [ESse (Some w_notif)]) = true
+  /\ stream_due w_rid late_init (ESse (Some w_notif) :: w_late ++ [ESse (Some w_notif)]) = [w_notif; w_notif]
   /\ enter cfg_patched w_base 5000 (EstResp 10 200 [(100, w_nospace)] None) = Live (w_base ++ s_messages ++ [120]) 100
-  /\ enter cfg_head w_base 5000 (EstResp 10 200 [(100, w_nospace)] None) = Raise 5000
+  /\ enter cfg_orig w_base 5000 (EstResp 10 200 [(100, w_nospace)] None) = Raise 5000
   /\ enter cfg_patched w_base 5000 (EstResp 10 404 [] None) = Raise 10
   /\ lp (life cfg_patched [LAlloc; LStreamOpen; LEnterOk; LPendAdd; LExit XCancelTask]) = LClosed.
 Proof. repeat split; reflexivity. Qed.
